@@ -7,6 +7,7 @@
     (2) a title-cased form of (1)  ("Meter", "Degree_Celsius"),
     (3) an SI prefix — symbol (`k`), word (`kilo`) or title-cased word (`Kilo…`) — attached to a
         symbol or listed spelling of a *prefixable* unit,
+    (4) failing all of these, another capitalisation of a spelling or of prefix word + spelling,
   and it denotes  10^k × that unit.  The reader tries *every* prefix spelling at *every* position and *every* spelling of every unit;
   it knows nothing of `_split_prefix`'s single attempt, of the `da` special case, of the order in
   which the generator emits names, or of its length/case heuristics.  Precedence is what the
@@ -123,6 +124,28 @@ def level3 (ct : CaseTable) (sp : Spellings) (s sl : Name) : List RReading :=
   prefixedExact sp prefixSymbols s sl symbolLens ++ prefixedExact sp prefixWords s sl wordLens
     ++ prefixedTitle ct sp s sl wordLens
 
+/-- class (4): rows of the bucket in whatever capitalisation (the bucket is keyed by the
+    lower-cased spelling) -/
+def anyCaseIn (needP : Bool) (k : Int) : List (Name × Name × Bool) → List RReading
+  | [] => []
+  | (_, c, p) :: r => if p || !needP then (k, c) :: anyCaseIn needP k r else anyCaseIn needP k r
+
+/-- class (4b): prefix word + spelling of a prefixable unit, in whatever capitalisation -/
+def prefixedAnyCase (sp : Spellings) (sl : Name) : List Nat → List RReading
+  | [] => []
+  | n :: r =>
+    (if Nat.blt n (Name.len sl) then
+      Name.force (Name.take n sl) fun pw =>
+        match findN pw prefixWords with
+        | some k => Name.force (Name.drop n sl) fun bl => anyCaseIn true k ((sp.get? bl).getD [])
+        | none => []
+     else []) ++ prefixedAnyCase sp sl r
+
+/-- class (4): another capitalisation of a spelling or of prefix word + spelling (only consulted
+    when no reading of classes (1)–(3) exists; symbols with prefix symbols stay case-sensitive) -/
+def level4 (sp : Spellings) (sl : Name) : List RReading :=
+  anyCaseIn false 0 ((sp.get? sl).getD []) ++ prefixedAnyCase sp sl wordLens
+
 inductive Verdict
   | unknown
   | unique (k : Int) (c : Name)
@@ -142,13 +165,16 @@ def verdict (ct : CaseTable) (sp : Spellings) (s : Name) : Verdict :=
   | [] =>
     match titleIn ct s bucket with
     | x :: r => agree (x :: r)
-    | [] => agree (level3 ct sp s sl)
+    | [] =>
+      match level3 ct sp s sl with
+      | x :: r => agree (x :: r)
+      | [] => agree (level4 sp sl)
 
 /-- all readings of all classes (for the report of a second reading) -/
 def allReadings (ct : CaseTable) (sp : Spellings) (s : Name) : List RReading :=
   Name.force (Name.lower ct s) fun sl =>
   let bucket := (sp.get? sl).getD []
-  exactIn s false 0 bucket ++ titleIn ct s bucket ++ level3 ct sp s sl
+  exactIn s false 0 bucket ++ titleIn ct s bucket ++ level3 ct sp s sl ++ level4 sp sl
 
 /-- `"°C"` -/
 def degreeSignC : Name := 142606513
